@@ -3,7 +3,7 @@
    Mirrors, line by line, of py7zr/py7zr.py:
      SevenZipFile.extract        (targets normalised with helpers.remove_trailing_slash)
      SevenZipFile._extract       (the name filter: exact membership, or, with recursive=True,
-                                  membership or `f.filename.startswith(target)`; registration
+                                  membership or `f.filename.startswith(target + "/")`; registration
                                   of the outputs under `f.id`; directories are never registered)
      SevenZipFile._real_get_contents  (`folder.files = ArchiveFileList(offset=file_id)` and the
                                   numbering of the members of a folder's file list: see
@@ -56,10 +56,11 @@ Definition targets_norm (T : list str) : list str := map remove_trailing_slash T
 
 (* the decision of _extract for one member (targets given; `set(targets)` only matters through
    membership): recursive False -> `f.filename in targets`; recursive True ->
-   `f.filename in targets or any(f.filename.startswith(target) for target in targets)` *)
+   `f.filename in targets or any(f.filename.startswith(target + "/") for target in targets)`
+   (py7zr since `fix: recursive extraction matched targets by string prefix`) *)
 Definition sel (T : list str) (recursive : bool) (n : str) : bool :=
   let T' := targets_norm T in
-  if recursive then mem n T' || existsb (startswith n) T' else mem n T'.
+  if recursive then mem n T' || existsb (fun t => startswith n (t ++ [47%Z])) T' else mem n T'.
 
 (* what the property asks for: the named members and, with recursive, the members beneath a
    named directory (path prefix, i.e. string prefix followed by '/') *)
@@ -244,17 +245,13 @@ Definition wf_archiveb (a : archive) : bool :=
   nodupb (names a) && forallb name_ok (names a) && folders_ok 0 true (data_folders a).
 Definition wf_archive (a : archive) : Prop := wf_archiveb a = true.
 
-(* no member name is a proper string prefix of another except along '/' boundaries *)
+(* no member name is a proper string prefix of another except along '/' boundaries (the side
+   condition of the property; no theorem needs it since recursive matching goes along '/') *)
 Definition prefix_ok (n t : str) : bool :=
   negb (startswith n t) || str_eqb n t || startswith n (t ++ [47%Z]).
 Definition prefix_free_namesb (a : archive) : bool :=
   forallb (fun t => forallb (fun n => prefix_ok n t) (names a)) (names a).
 Definition prefix_free_names (a : archive) : Prop := prefix_free_namesb a = true.
-(* the same for the (normalised) targets against the member names *)
-Definition targets_prefix_okb (a : archive) (T : list str) : bool :=
-  forallb (fun t => forallb (fun n => prefix_ok n t) (names a)) (targets_norm T).
-Definition targets_prefix_ok (a : archive) (T : list str) : Prop := targets_prefix_okb a T = true.
-
 (* the numbering of every folder's file list agrees with the header: the j-th data member of a
    folder is stored at header index offset+j, i.e. no empty-stream entry lies between two data
    members of one folder (only relevant with more than one folder) *)
@@ -320,10 +317,10 @@ Definition select_dispatch (fn : Z) (a : tree) : tree :=
                TL (map (fun k => TL (map (fun mm => TL [t_nat (fst (fst mm)); t_nat (fst (snd mm))])
                                          (combine (folder_files stored ar k) (folder_members ar k))))
                        (seq 0 (numfolders ar)))]
-  (* FN 185 sel_conditions : (archive targets stored) -> (wf prefix_free targets_prefix_ok ids_consistent) *)
+  (* FN 185 sel_conditions : (archive stored) -> (wf prefix_free ids_consistent) *)
   | 185 => let ar := of_archive (tnth a 0) in
            TL [t_bool (wf_archiveb ar); t_bool (prefix_free_namesb ar);
-               t_bool (targets_prefix_okb ar (of_targets (tnth a 1))); t_bool (ids_consistentb (of_bool (tnth a 2)) ar)]
+               t_bool (ids_consistentb (of_bool (tnth a 1)) ar)]
   (* FN 186 sel_comps : str -> path *)
   | 186 => t_path (comps (of_str a))
   | _ => TL [TI (-2)]
